@@ -28,7 +28,8 @@
       from `mwpmNetworkx oracle`.
   TRUSTED: `NxContract` — Edmonds' blossom algorithm lives in networkx, outside /repo; C13's harness tests the real
   routine against the verified optimum `minPM` on every run.  It is now the single trusted assumption of C14's MWPM
-  clause.  (With the Blossom V C library present `gt.mwpm` dispatches to it instead; that backend is not covered.)
+  clause on the networkx path.  (With the Blossom V C library present `gt.mwpm` dispatches to it instead; that backend
+  is covered by Props/C14/Blossom.lean, under the contract `Blossom5.ClibContract` of the C routine.)
 -/
 import QecVerif.Props.C14
 import QecVerif.Props.C14.Chain
@@ -316,12 +317,16 @@ STATED, NOT PROVED (outside /repo, or outside the model):
   * `NxContract networkx_max_weight_matching` for the REAL routine — Edmonds' blossom algorithm in networkx.  Tested on
     every run by C13's harness (perfectness and total weight against the verified optimum `minPM`); the single trusted
     assumption of C14's MWPM clause.
-  * the Blossom V backend: `gt.mwpm` dispatches to `mwpm_blossom5` when the C library loads (it does not in this
-    environment); the analogous bridge would take a contract for `clib` and `weight_to_int_fn` being exact on the
-    integer distances (`weightToIntKind … = .ident`: all weights are ints below `infty()/10`):
-        ∀ clib, ClibContract clib → ∀ R C ≥ 2, ∀ s t,
-          MinWeightPMPlanar R C t (planarDefects R C s t)
-            (decode (mwpmBlossom5 toInt clib (build (planarGraphOps R C t (planarDefects R C s t)))))
+  * (NOW PROVED, Props/C14/Blossom.lean `bridge_planar_blossom`, `bridge_toric_blossom`,
+    `planar_mwpm_corrects_blossom`, `toric_mwpm_corrects_blossom`, `…_corrects_gt_mwpm`: the Blossom V backend.
+    `gt.mwpm` dispatches to `mwpm_blossom5` when the C library loads (it does not in this environment); with the
+    wrapper modelled line by line (Model/Blossom5.lean: node→id map in any hash order, id edges, the `assert` of
+    `mwpm_ids`, the C call, sorted id pairs, ids back to nodes) and `weight_to_int_fn` proved to be the identity on the
+    decoders' integer distances when `R + C < infty()/10`,
+        ∀ clib, ClibContract clib → ∀ hash orders, ∀ R C ≥ 2 with R + C < infty/10, ∀ s t,
+          mwpm_blossom5 raises nothing ∧ MinWeightPMPlanar R C t (planarDefects R C s t) (decoded mates)
+    and the same for toric, hence `corrects`.)  What stays trusted there: `ClibContract` for the REAL Blossom V library
+    (outside /repo, licence forbids redistribution; satisfiable: `clib_contract_satisfiable`).
   * (NOW PROVED, Props/C14/MatesOrder.lean `planar_applyMates_perm`, `toric_applyMates_perm`,
     `toric_mwpm_recovery_perm`: `recovery_pauli.path(a, b)` is applied for the mates in the (hash) order of the returned
     Python `set`, the model applies them in list order; the recovery is an XOR of paths, so it is the same for every
